@@ -10,7 +10,7 @@ from vlib.hanglatch import latched
 from vlib.ref import theory as T
 
 PROPERTY_ID = "C03"
-RULE = ("naming: all ordered pairs of unmixed names with <= 3 accidentals (49^2, both tiers) whose ascending distance "
+RULE = ("naming: all ordered pairs of unmixed names with <= 3 accidentals (49^2; thorough <= 4, 63^2) whose ascending distance "
         "counted along the letters, (nat(b)-nat(a)) mod 12 + acc(b) - acc(a), is 0..11, x {long, short} form, enumerated; "
         "shorthand: the same names x 35 shorthands ('', #, ##, b, bb x degree 1-7) x {up, down}, enumerated (up cases also "
         "go back down); invert: fixed small lists plus Hypothesis lists (length 0-8) of note names, ints, None, text and "
@@ -121,7 +121,7 @@ def _shard(seq, shard, nshards):
 
 
 def _names(ctx):
-    k = 3 if ctx.quick else 3
+    k = 3 if ctx.quick else 4
     return k, T.unmixed_names(k)
 
 
